@@ -38,6 +38,7 @@ func cmdCrash(args []string) {
 	var w *World
 	for i := 0; i < *n && !st.Poisoned; i++ {
 		u := NewUniverse(rng, 10, i%5 == 4)
+		u.FragBoost = true
 		nw := NewWorld(f, rng, u, 0)
 		nw.prop = *prop
 		if w != nil {
